@@ -3,6 +3,7 @@ package props
 import (
 	"bufio"
 	"bytes"
+	"encoding/binary"
 	"errors"
 	"fmt"
 	"github.com/go-netty/go-netty/codec/xhttp"
@@ -13,10 +14,13 @@ import (
 	"sync/atomic"
 	"time"
 
+	netty "github.com/go-netty/go-netty"
+	"github.com/go-netty/go-netty/codec/frame"
 	"github.com/go-netty/go-netty/utils/pool/pbytes"
 
 	"verif/core"
 	"verif/mon"
+	"verif/props/concodec"
 	"verif/props/wl"
 )
 
@@ -258,6 +262,100 @@ func c10CloseScript(c *core.Ctx, id string, idx int) {
 	}
 }
 
+// c10Framed: several goroutines write through a length-field codec, each from one scratch buffer it overwrites as soon as
+// its Write call has returned, while the first low-level write is held until every writer has a message past the codec:
+// every frame on the wire must be the header of, and the bytes of, one message as its buffer held it at the call.
+func c10Framed(c *core.Ctx, id string, idx int) {
+	rng := c.Rand("framed", idx)
+	mode := mon.Mode(idx % 3)
+	hdr := []int{2, 4}[(idx/3)%2]
+	W := 2 + rng.Intn(3)
+	per := 3 + rng.Intn(6)
+	sizes := []int{20, 60, 255, 256, 300, 1000, 1024, 5000}
+	counts := make([]int, W)
+	scratch := make([][]byte, W)
+	plan := make([][]int, W)
+	want := map[string]bool{}
+	for w := 0; w < W; w++ {
+		counts[w] = per
+		scratch[w] = make([]byte, 8192)
+		for s := 0; s < per; s++ {
+			plan[w] = append(plan[w], sizes[rng.Intn(len(sizes))])
+			want[fmt.Sprintf("%d.%d", w, s)] = true
+		}
+	}
+	gen := func(w, i int) netty.Message {
+		b := scratch[w][:plan[w][i]]
+		copy(b, mon.Payload(w, i, len(b)))
+		return b
+	}
+	after := func(w, i int) {
+		b := scratch[w][:plan[w][i]]
+		for j := range b {
+			b[j] = 0xEE
+		}
+	}
+	res := concodec.RunGen(mode, 8, []netty.Handler{frame.LengthFieldCodec(binary.BigEndian, 1<<20, 0, hdr, 0, hdr)}, counts, gen, after)
+	c.Count("framed_concurrent_trials", 1)
+	if res.Stalled {
+		c.Count("framed_concurrent_trials_with_pileup", 1)
+		c.Sig("framed", int(mode), hdr, W)
+	}
+	if !res.Done {
+		c.Inconclusive(id, "watchdog: concurrent framed writers stuck")
+		return
+	}
+	if mode == mon.NonBlock || len(res.Excs) > 0 {
+		// refused writes (full non-blocking queue) are legitimate: only what is on the wire is judged
+		for k := range want {
+			delete(want, k)
+		}
+	}
+	off, bad, got := 0, "", 0
+	for off < len(res.Wire) && bad == "" {
+		if off+hdr > len(res.Wire) {
+			bad = fmt.Sprintf("%d stray bytes at offset %d", len(res.Wire)-off, off)
+			break
+		}
+		n := int(binary.BigEndian.Uint16(res.Wire[off:]))
+		if hdr == 4 {
+			n = int(binary.BigEndian.Uint32(res.Wire[off:]))
+		}
+		if off+hdr+n > len(res.Wire) {
+			bad = fmt.Sprintf("frame at offset %d: header announces %d body bytes, %d left on the wire", off, n, len(res.Wire)-off-hdr)
+			break
+		}
+		recs, perr := mon.ParseWire(res.Wire[off+hdr : off+hdr+n])
+		if len(perr) > 0 || len(recs) != 1 || recs[0].Size != n {
+			bad = fmt.Sprintf("frame at offset %d: header announces %d bytes but what follows is not one whole message as its writer's buffer held it at the call", off, n)
+			break
+		}
+		k := fmt.Sprintf("%d.%d", recs[0].W, recs[0].Seq)
+		if recs[0].W >= W || recs[0].Seq >= per || plan[recs[0].W][recs[0].Seq] != n {
+			bad = "a frame that was never written: " + k
+		}
+		delete(want, k)
+		got++
+		off += hdr + n
+	}
+	c.Count("framed_concurrent_frames_checked", int64(got))
+	if bad == "" && len(want) > 0 {
+		bad = fmt.Sprintf("%d messages whose Write was issued on an open channel are missing from the wire", len(want))
+	}
+	if bad != "" {
+		c.Violation("C10:framed-message-altered-under-concurrent-writers", id,
+			fmt.Sprintf("%d goroutines writing through LengthFieldCodec(%d-byte header) on a %s channel, each overwriting its buffer after Write returned: %s", W, hdr, mode, bad),
+			map[string]interface{}{"writers": W, "wire_prefix": fmt.Sprintf("%x", res.Wire[:minIntC10(len(res.Wire), 96)])})
+	}
+}
+
+func minIntC10(a, b int) int {
+	if a < b {
+		return a
+	}
+	return b
+}
+
 func runC10(c *core.Ctx) {
 	for i, n := 0, c.Scale(16, 320); i < n; i++ {
 		if !c.Mine(i) {
@@ -284,6 +382,15 @@ func runC10(c *core.Ctx) {
 		id := fmt.Sprintf("response-writers%d", i)
 		if c.CaseQuiet(id) {
 			c10ResponseWriters(c, id, i)
+		}
+	}
+	for i, n := 0, c.Scale(48, 960); i < n; i++ {
+		if !c.Mine(i) {
+			continue
+		}
+		id := fmt.Sprintf("framed%d", i)
+		if c.CaseQuiet(id) {
+			c10Framed(c, id, i)
 		}
 	}
 	total := c.Scale(16000, 160000)
